@@ -54,7 +54,10 @@ def cases(tier, seed):
         if mem["nranks"] == 2 and mem["bankbits"] == 4:
             mem["bankbits"] = 3
         mem["timing"].update(tRP=1, tRCD=1, tWR=1, tWTR=1, tRFC=4, tFAW=None, tCCD=1, tRRD=None, tRC=None, tRAS=None)
-        cs = dict(cmd_buffer_depth=4, with_refresh=False, with_auto_precharge=bool(k % 2))
+        # a third of the cases run with refresh and pauses in the address stream (banks idle across a refresh: the row of
+        # the first ACTIVATE afterwards must still be the row part of the address)
+        with_ref = (k % 3 == 2)
+        cs = dict(cmd_buffer_depth=4, with_refresh=with_ref, with_auto_precharge=bool(k % 2))
         word_bytes = mem["databits"] * (1 if mem["memtype"] == "SDR" else mem.get("dfi_mult", 2)) * mem["nphases"] // 8
         align = {"SDR": {1: 0, 2: 1}[mem["nphases"]] if mem["memtype"] == "SDR" else None}.get("SDR")
         bba = [0, "row", "bank/4", 0x10000, "bank/2", 0, "4rows", "bank", 0x1000, "bank/8"][(k // 3 + seed) % 10] if k % 3 else \
@@ -73,10 +76,10 @@ def cases(tier, seed):
             bba = 0
         cs["bank_byte_alignment"] = bba
         wl = {"class": "explicit", "master_mode": "fifo", "n_rand": 60 if tier == "quick" else 150}
-        cfg = dict(mem=mem, cs=cs, nports=1, workload=wl, seed="C06/%d/%d" % (seed, k), trefi_override=None,
-                   max_cycles=60000, sweep=False)
-        cfg["name"] = "%03d-%s-b%d-r%d-c%d-k%d-bba%s-ap%d" % (k, mem["family"], mem["bankbits"], mem["rowbits"], mem["colbits"],
-                                                               mem["nranks"], hex(bba), k % 2)
+        cfg = dict(mem=mem, cs=cs, nports=1, workload=wl, seed="C06/%d/%d" % (seed, k), trefi_override=(150 if with_ref else None),
+                   max_cycles=90000, sweep=False, pauses=with_ref)
+        cfg["name"] = "%03d-%s-b%d-r%d-c%d-k%d-bba%s-ap%d%s" % (k, mem["family"], mem["bankbits"], mem["rowbits"], mem["colbits"],
+                                                                 mem["nranks"], hex(bba), k % 2, "-ref" if with_ref else "")
         cfg["cost"] = corecfg.cost_of(mem, 1, 5000)
         out.append(cfg)
     return out
@@ -92,7 +95,12 @@ def run_case(cfg):
     amap = AddressMap(mem["memtype"], mem["nphases"], mem.get("nranks", 1), mem["bankbits"], mem["rowbits"], mem["colbits"],
                       word_bytes, cfg["cs"].get("bank_byte_alignment", 0))
     addrs = addresses(amap.aw, r, cfg["workload"]["n_rand"])
-    cfg["workload"]["ops"] = [[(0 if r.random() < 0.8 else r.randint(1, 4), int(r.random() < 0.5), a) for a in addrs]]
+    def gap():
+        x = r.random()
+        if cfg.get("pauses") and x < 0.04:
+            return r.randint(120, 260)       # long enough for a refresh to pass with every bank idle
+        return 0 if x < 0.8 else r.randint(1, 4)
+    cfg["workload"]["ops"] = [[(gap(), int(r.random() < 0.5), a) for a in addrs]]
     try:
         tr = W.run_case(cfg)
     except W.PortGeometryMismatch as e:
